@@ -258,7 +258,11 @@ class Prop(BaseProp):
                                                            "unterminated-bracket-comment"):
                     res.count("mutants_legacy_skipped")
                     continue
-                LAYOUT_ONLY = ("text-after-command-on-same-line", "identifier-separated-from-paren")
+                # reasons for which CMake rejects the file but which are none of the fault classes C06 lists: the two layout
+                # rules, and an unterminated bracket ARGUMENT (C06 names unterminated strings and bracket COMMENTS; CMinx reads a
+                # '[=[' that never closes as ordinary argument text -- a pair of quote faults can produce one: the first quote lands
+                # inside the closing ']=]', the second pairs up with it)
+                LAYOUT_ONLY = ("text-after-command-on-same-line", "identifier-separated-from-paren", "unterminated-bracket")
                 reasons = [x for x, _ in mref.all_invalid if x not in LAYOUT_ONLY]
                 reason = reasons[0] if reasons else mref.invalid[0]
                 if reason in LAYOUT_ONLY:
